@@ -843,5 +843,20 @@ theorem c06_shape_treeStorage_Unregister :
     Shapes.treestorage_treeStorage_Unregister =
    ["ts.Lock", "defer:ts.Unlock", "if:(tree==nil)"] := rfl
 
+theorem c06_shape_Tree_computeSubtreeAggregate :
+    Shapes.tree_Tree_computeSubtreeAggregate =
+   ["Public.Clone", "t.computeSubtreeAggregate", "agg.Add", "return:agg"] := rfl
+
+theorem c06_shape_NewTreeFromMarshal :
+    Shapes.tree_NewTreeFromMarshal =
+   ["network.Unmarshal", "if:(err!=nil)", "return:nil,err", "if:!tp.Equal(TreeMarshalTypeID)",
+     "return:nil,xerrors.New(\"\")", "?.MakeTree", "if:(err!=nil)",
+     "return:nil,xerrors.Errorf(\"\",err)", "t.computeSubtreeAggregate", "return:t,nil"] := rfl
+
+theorem c06_shape_Tree_BinaryUnmarshaler :
+    Shapes.tree_Tree_BinaryUnmarshaler =
+   ["network.Unmarshal", "if:!ok", "return:xerrors.New(\"\")", "NewTreeFromMarshal",
+     "if:(err!=nil)", "return:xerrors.Errorf(\"\",err)", "return:nil"] := rfl
+
 
 end C06
